@@ -252,7 +252,13 @@ func caseWriteSeq(r *mon.Rec, idx int) {
 		for k := 0; k < nw; k++ {
 			if k == 0 || rng.IntN(3) != 0 { // change the destination in place (same object, same backing array)
 				d := ip4(rng)
+				if dest.IP == nil {
+					dest.IP = make(net.IP, 4)
+				}
 				copy(dest.IP, d[:])
+			}
+			if k > 0 && rng.IntN(5) == 0 { // a destination without an IP address goes out to 0.0.0.0
+				dest.IP = nil
 			}
 			if rng.IntN(2) == 0 {
 				dest.Port = port(rng)
@@ -434,6 +440,10 @@ func caseRead(r *mon.Rec, idx int, gray bool) {
 			if t2 := refframe.Build(f); t2[26] == 0xff && t2[27] == 0xff {
 				r.Count("frames_with_all_ones_udp_checksum", 1)
 			}
+		}
+		if !gray && rng.IntN(3) == 0 {
+			// the flag bits that do not make a frame a fragment: don't-fragment (what most hosts send), the reserved bit
+			f.FlagsFrag = []uint16{0x4000, 0x4000, 0x8000, 0xc000}[rng.IntN(4)]
 		}
 		switch k {
 		case 0, 1, 2: // plain valid
